@@ -399,6 +399,7 @@ const tLin = "TestDequeLinearizable"
 
 type linCase struct {
 	Opts    Opts         `json:"opts"`
+	Prefill int          `json:"prefill,omitempty"` // PushBacks applied (to the deque and to the model) before the threads start
 	Prog    vkit.Program `json:"program"`
 	History []string     `json:"history,omitempty"`
 }
@@ -406,6 +407,15 @@ type linCase struct {
 func runLin(t vkit.TB, c *linCase, reps int) (overlaps, released int) {
 	for i := 0; i < reps; i++ {
 		dq, init := c.Opts.Make()
+		for k := 0; k < c.Prefill; k++ {
+			in := vkit.Step{Op: "PushBack", V: 9000 + k, Ctx: -1}
+			out := exec(dq)(0, in, context.Background())
+			ok, st := step(init, in, out)
+			if !ok {
+				vkit.Fail(t, tLin, "C06:prefill", *c, "prefill PushBack %d returned %q, which the sequential model does not allow", k, out.Err)
+			}
+			init = st
+		}
 		model := porcupine.Model{
 			Init:              func() any { return init },
 			Step:              func(st, in, out any) (bool, any) { return step(st.(pmodel.State), in.(vkit.Step), out.(vkit.Result)) },
@@ -434,6 +444,8 @@ func runLin(t vkit.TB, c *linCase, reps int) (overlaps, released int) {
 	return
 }
 
+var linContentionOps = []string{"WaitPushFront", "WaitPushBack", "WaitPushBack", "ForcePushFront", "ForcePushBack", "PushBack", "PushFront", "PopFront", "PopBack", "WaitFront", "Len", "cancel"}
+
 var linOps = []string{"PushFront", "PushBack", "PushBack", "ForcePushFront", "ForcePushBack", "WaitPushFront", "WaitPushBack", "PopFront", "PopFront", "PopBack", "WaitFront", "WaitBack", "Len", "Close", "cancel"}
 
 func TestDequeLinearizable(t *testing.T) {
@@ -451,11 +463,28 @@ func TestDequeLinearizable(t *testing.T) {
 		c.Prog.Procs = rapid.SampledFrom([]int{1, 2, 4, 16}).Draw(t, "gomaxprocs")
 		ng := rapid.IntRange(2, 4).Draw(t, "goroutines")
 		next, closes := 0, 0
+		// half of the bounded cases are "slot contention" programs: the
+		// deque starts full (or one below) and the threads mostly push
+		// (blocking, forcing, plain) and pop at both ends
+		ops := linOps
+		contention := c.Opts.Kind != "unlimited" && rapid.Bool().Draw(t, "contention")
+		if contention {
+			full := c.Opts.Capacity
+			if c.Opts.Kind == "quota" {
+				if full = c.Opts.Soft; full <= 0 {
+					full = c.Opts.Hard
+				}
+			}
+			if c.Prefill = full - rapid.IntRange(0, 1).Draw(t, "belowCapacity"); c.Prefill < 0 {
+				c.Prefill = 0
+			}
+			ops = linContentionOps
+		}
 		for g := 0; g < ng; g++ {
 			n := rapid.IntRange(1, 7).Draw(t, "nops")
 			var th []vkit.Step
 			for i := 0; i < n; i++ {
-				s := vkit.Step{Op: rapid.SampledFrom(linOps).Draw(t, "op"), Ctx: -1, Yield: rapid.IntRange(0, 4).Draw(t, "yield")}
+				s := vkit.Step{Op: rapid.SampledFrom(ops).Draw(t, "op"), Ctx: -1, Yield: rapid.IntRange(0, 4).Draw(t, "yield")}
 				switch s.Op {
 				case "PushFront", "PushBack", "ForcePushFront", "ForcePushBack", "WaitPushFront", "WaitPushBack":
 					next++
@@ -485,7 +514,7 @@ func TestDequeLinearizable(t *testing.T) {
 			}
 		}
 		ov, rel := runLin(t, c, reps)
-		cls := []string{"kind=" + c.Opts.Kind, fmt.Sprintf("goroutines=%d", ng), fmt.Sprintf("overlap=%v", ov > 0)}
+		cls := []string{"kind=" + c.Opts.Kind, fmt.Sprintf("goroutines=%d", ng), fmt.Sprintf("overlap=%v", ov > 0), fmt.Sprintf("slot-contention=%v", contention)}
 		if rel > 0 {
 			cls = append(cls, "leftovers-released")
 		}
